@@ -4,6 +4,7 @@ import (
 	"encoding/binary"
 	"fmt"
 	"math"
+	"sort"
 
 	"seehuhn.de/go/sfnt/zzverif/tape"
 )
@@ -386,4 +387,181 @@ func FDSelect3(sel func(int) int, n int) []byte {
 		b = append(b, byte(r[0]>>8), byte(r[0]), byte(r[1]))
 	}
 	return append(b, byte(n>>8), byte(n))
+}
+
+// RewrapGtab rebuilds the lookup list of an encoded GSUB or GPOS table the
+// way other font tools write it (the library's own encoder only does so
+// beyond 64 KiB): a tape-chosen subset of the lookups becomes extension
+// lookups (type 7 / 9) whose subtable offsets point at 8-byte extension
+// records; with share set, one subtable offset of an ordinary lookup is
+// pointed at an extension record of another lookup (offsets may be shared
+// freely in the format; whether the bytes make sense under both readings is
+// for the reader to decide).  It returns the input unchanged (and "") if the
+// table does not have the expected layout.
+func RewrapGtab(t *tape.Tape, data []byte, gpos, share bool) ([]byte, string) {
+	u16 := func(p int) int { return int(data[p])<<8 | int(data[p+1]) }
+	if len(data) < 10 {
+		return data, ""
+	}
+	LL := u16(8)
+	if LL < 10 || LL < u16(4) || LL < u16(6) || LL+2 > len(data) {
+		return data, ""
+	}
+	extType := 7
+	if gpos {
+		extType = 9
+	}
+	n := u16(LL)
+	if n == 0 || LL+2+2*n > len(data) {
+		return data, ""
+	}
+	type lk struct {
+		tp, flag, mfs int
+		subs          []int // absolute positions
+	}
+	var lks []lk
+	starts := map[int]bool{}
+	for i := 0; i < n; i++ {
+		L := LL + u16(LL+2+2*i)
+		if L+6 > len(data) {
+			return data, ""
+		}
+		l := lk{tp: u16(L), flag: u16(L + 2)}
+		cnt := u16(L + 4)
+		if l.tp == extType || L+6+2*cnt+2 > len(data) {
+			return data, ""
+		}
+		for j := 0; j < cnt; j++ {
+			s := L + u16(L+6+2*j)
+			if s >= len(data) {
+				return data, ""
+			}
+			l.subs = append(l.subs, s)
+			starts[s] = true
+		}
+		if l.flag&0x0010 != 0 {
+			l.mfs = u16(L + 6 + 2*cnt)
+		}
+		lks = append(lks, l)
+	}
+	var sorted []int
+	for s := range starts {
+		sorted = append(sorted, s)
+	}
+	sort.Ints(sorted)
+	// layout of the new lookup list (positions relative to LL)
+	wrap := make([]bool, n)
+	any := false
+	for i := range wrap {
+		wrap[i] = t.Chance(1, 2)
+		any = any || wrap[i]
+	}
+	if !any {
+		wrap[t.Draw(n)] = true
+	}
+	pos := 2 + 2*n
+	lookupPos := make([]int, n)
+	for i, l := range lks {
+		lookupPos[i] = pos
+		pos += 6 + 2*len(l.subs)
+		if l.flag&0x0010 != 0 {
+			pos += 2
+		}
+	}
+	extPos := make([][]int, n)
+	for i, l := range lks {
+		if !wrap[i] {
+			continue
+		}
+		for range l.subs {
+			extPos[i] = append(extPos[i], pos)
+			pos += 8
+		}
+	}
+	blobPos := map[int]int{}
+	for k, s := range sorted {
+		end := len(data)
+		if k+1 < len(sorted) {
+			end = sorted[k+1]
+		}
+		blobPos[s] = pos
+		pos += end - s
+	}
+	// optional sharing
+	shareB, shareJ, shareTo := -1, 0, 0
+	note := ""
+	if share {
+		var bs, as []int
+		for i, l := range lks {
+			if !wrap[i] && len(l.subs) >= 2 {
+				bs = append(bs, i)
+			}
+			if wrap[i] && len(l.subs) > 0 {
+				as = append(as, i)
+			}
+		}
+		if len(bs) > 0 && len(as) > 0 {
+			shareB = bs[t.Draw(len(bs))]
+			shareJ = 1 + t.Draw(len(lks[shareB].subs)-1)
+			a := as[t.Draw(len(as))]
+			shareTo = extPos[a][t.Draw(len(extPos[a]))]
+			note = fmt.Sprintf("; subtable %d of lookup %d shares its offset with an extension record of lookup %d", shareJ, shareB, a)
+		}
+	}
+	out := append([]byte(nil), data[:LL]...)
+	put := func(v int) { out = append(out, byte(v>>8), byte(v)) }
+	put(n)
+	for i := range lks {
+		put(lookupPos[i])
+	}
+	for i, l := range lks {
+		tp := l.tp
+		if wrap[i] {
+			tp = extType
+		}
+		put(tp)
+		put(l.flag)
+		put(len(l.subs))
+		for j, s := range l.subs {
+			off := blobPos[s] - lookupPos[i]
+			if wrap[i] {
+				off = extPos[i][j] - lookupPos[i]
+			}
+			if i == shareB && j == shareJ {
+				off = shareTo - lookupPos[i]
+			}
+			if off < 0 || off > 0xFFFF {
+				return data, ""
+			}
+			put(off)
+		}
+		if l.flag&0x0010 != 0 {
+			put(l.mfs)
+		}
+	}
+	for i, l := range lks {
+		if !wrap[i] {
+			continue
+		}
+		for j, s := range l.subs {
+			put(1)
+			put(l.tp)
+			off := blobPos[s] - extPos[i][j]
+			out = append(out, byte(off>>24), byte(off>>16), byte(off>>8), byte(off))
+		}
+	}
+	for k, s := range sorted {
+		end := len(data)
+		if k+1 < len(sorted) {
+			end = sorted[k+1]
+		}
+		out = append(out, data[s:end]...)
+	}
+	var w []int
+	for i := range wrap {
+		if wrap[i] {
+			w = append(w, i)
+		}
+	}
+	return out, fmt.Sprintf("lookups %v rewritten as extension lookups%s", w, note)
 }
